@@ -74,7 +74,7 @@ def run(tier):
                         "snapshot install on two mini nodes: after the install the follower still serves %s, which the "
                         "leader deleted before the snapshot (gone after a restart) at step %s" % (nt["extra"], nt["step"]),
                         {"behaviour": b, "note": nt})
-    # ---- sizes: the same behaviours with the content named c as a text of 2.4 MB (every record that holds it is larger
+    # ---- sizes: the same behaviours with the content named c as a text of 3.3 MB (every record that holds it is larger
     # than 2 MiB - more than one read of a file returns - and the snapshot travels in chunks of about a megabyte)
     def big_ok(b):
         seen = False
@@ -88,7 +88,7 @@ def run(tier):
     if len(bigb) < 5:
         raise ToolError("too few behaviours in which content c is published before a completed install: %d" % len(bigb))
     bbf = vlib.write_ndjson(os.path.join(sc, "beh_big.ndjson"), bigb)
-    bres = vlib.harness(["replay", "snapinstall", bbf, "--jobs", 5], timeout=6000, env={"RNVERIF_BIG": "c=2400000"})
+    bres = vlib.harness(["replay", "snapinstall", bbf, "--jobs", 5], timeout=6000, env={"RNVERIF_BIG": "c=3300000"})
     bsumm = [r for r in bres if r.get("kind") == "summary"][0]
     if bsumm.get("tool_errors", 0) > len(bigb) // 4:
         raise ToolError("big-record leg: too many mini-node tool errors: %s" % bsumm)
@@ -96,14 +96,14 @@ def run(tier):
         if r.get("kind") == "result" and not r["ok"]:
             b = bigb[r["i"]]
             k = keyfn(b, r)
-            c.violation(k if k == "C08:resumed_install_after_follower_restart" else k + "+2.4MB_content",
-                        "snapshot install on two mini nodes, content c = 2.4 MB: %s (expected %s, got %s) at step %s" %
+            c.violation(k if k == "C08:resumed_install_after_follower_restart" else k + "+3.3MB_content",
+                        "snapshot install on two mini nodes, content c = 3.3 MB: %s (expected %s, got %s) at step %s" %
                         (r.get("what"), json.dumps(r.get("expected"))[:600], json.dumps(r.get("actual"))[:600], r.get("step")),
-                        {"behaviour": b, "mismatch": {k2: (v if len(json.dumps(v)) < 2000 else "(large)") for k2, v in r.items()}, "env": {"RNVERIF_BIG": "c=2400000"}})
+                        {"behaviour": b, "mismatch": {k2: (v if len(json.dumps(v)) < 2000 else "(large)") for k2, v in r.items()}, "env": {"RNVERIF_BIG": "c=3300000"}})
         for nt in (r.get("notes", []) or []) if r.get("kind") == "result" else []:
-            c.violation("C08:%s" % nt["class"], "snapshot install on two mini nodes (2.4 MB content): after the install the follower still "
+            c.violation("C08:%s" % nt["class"], "snapshot install on two mini nodes (3.3 MB content): after the install the follower still "
                         "serves %s, which the leader deleted before the snapshot at step %s" % (nt["extra"], nt["step"]), {"behaviour": bigb[r["i"]], "note": nt})
-    c.cov["behaviours_replayed_with_2.4MB_records"] = len(bigb)
+    c.cov["behaviours_replayed_with_3.3MB_records"] = len(bigb)
     c.traces(len(bigb))
     installs = summ.get("installs", 0)
     if installs < len(beh) // 2:
